@@ -76,6 +76,16 @@ def make_job_net(rng, idx, profile):
     return pipe_common.make_net(rng, idx, profile)
 
 
+def unhex(text):
+    """tensor names travel as hex through the Lean side; readable form for a message"""
+    def f(m):
+        try:
+            return "'" + bytes.fromhex(m.group(0)).decode("utf-8") + "'"
+        except Exception:  # noqa: B902
+            return m.group(0)
+    return re.sub(r"\b(?:[0-9a-f]{2}){4,}\b", f, text)
+
+
 def plan_offsets(model_bytes):
     """arena offset per tensor index of subgraph 0, one list per OfflineMemoryAllocation entry of the file (plain walker)"""
     import struct
@@ -403,7 +413,7 @@ def main():
         if m.group(1) == "bad":
             probs = [p.split("|", 1) for p in m.group(6).split(" ~ ")]
             ck.violation(f"an Ethos-U operator of an already compiled model is not passed through verbatim when the model is compiled again: "
-                         f"{probs[0][0]}: {probs[0][1][:200]} (network {o['idx']} {o['profile']}, options per generation {o['gen_opts']})",
+                         f"{probs[0][0]}: {unhex(probs[0][1])[:260]} (network {o['idx']} {o['profile']}, options per generation {o['gen_opts']})",
                          dict(replay_of(o), gen_opts=o["gen_opts"], verdict=ans[:1500], request=o["verbatim_line"][:6000],
                               how="compile the source with gen_opts[0], then the output with gen_opts[1] (and that output with gen_opts[2])"))
     programs = rejected = 0
